@@ -199,7 +199,83 @@ def gap_count_use(fn: ast.AST, root: ast.BinOp, par: dict, fm) -> "dict | None":
                     same = True
     if not same:
         problems.append("the two residues are not known to be of one chain at that point")
-    return {"core": norm(core), "pair": pair, "use": use, "problems": problems}
+    return {"core": norm(core), "pair": pair, "use": use, "problems": problems, "seq": seq_name}
+
+
+def same_chain_groups_from_caller(repo, fi, seq: str) -> bool:
+    """`seq` is a parameter of a helper: every caller in the same class / module hands it one member of a list of groups G that it
+    built by run splitting - `G[-1].append(r)` happens only on a path that found `r.chain == G[-1][-1].chain`, a new group starts as
+    the display `[r]` - so all members of a group are of one chain.  Read on the symbolic paths of the caller's loops."""
+    from sa import symexec as SX
+
+    params = [a.arg for a in fi.node.args.args]
+    if seq not in params:
+        return False
+    pos = params.index(seq) - (1 if params and params[0] in ("self", "cls") else 0)
+    hname = fi.node.name
+    callers = [g for q, g in fi.module.funcs.items() if g.node is not fi.node and (fi.cls is None or g.cls is fi.cls)]
+    n_calls = 0
+    for g in callers:
+        for c in ast.walk(g.node):
+            if not (isinstance(c, ast.Call) and ((isinstance(c.func, ast.Attribute) and c.func.attr == hname) or (isinstance(c.func, ast.Name) and c.func.id == hname))):
+                continue
+            n_calls += 1
+            if pos >= len(c.args) or not isinstance(c.args[pos], ast.Name):
+                return False
+            a = c.args[pos].id
+            G = None
+            for x in ast.walk(g.node):
+                if isinstance(x, (ast.For, ast.comprehension)) and isinstance(x.target, ast.Name) and x.target.id == a and isinstance(x.iter, ast.Name):
+                    G = x.iter.id
+            if G is None:
+                return False
+            ok_runs = False
+            for loop in [x for x in g.node.body if isinstance(x, ast.For)]:
+                try:
+                    paths = SX.run(loop.body, nonnull={G})
+                except SX.TooManyPaths:
+                    return False
+                for p in paths:
+                    for e in p.effects:
+                        if e.kind != "call":
+                            continue
+                        if e.recv == f"{G}[-1]" and e.method == "append" and e.args:
+                            r = norm(e.args[0])
+                            keys = {f"{r}.chain == {G}[-1][-1].chain", f"{G}[-1][-1].chain == {r}.chain"}
+                            if not any(k in keys and v for k, v, _ in p.conds):
+                                return False
+                            ok_runs = True
+                        elif e.recv == G and e.method == "append" and e.args:
+                            if not (isinstance(e.args[0], ast.List) and len(e.args[0].elts) == 1):
+                                return False
+                        elif e.recv.split("[")[0] == G and e.method in SX.MUTATORS:
+                            return False
+            if not ok_runs:
+                return False
+    return n_calls > 0
+
+
+def _only_constant_fields_read(repo, fi, parent, node) -> bool:
+    """The positionally picked atom is handed to a function of the package that reads nothing of it but residue-constant fields
+    (`residue_key(residue_atoms[0])` with `return (atom.label, atom.auth, atom.model)`)."""
+    if not (isinstance(parent, ast.Call) and isinstance(parent.func, ast.Name) and any(a is node for a in parent.args) and not parent.keywords):
+        return False
+    try:
+        hm, hn = repo.const_home(fi.module.name, parent.func.id)
+        callee = repo.modules[hm].funcs.get(hn)
+    except Exception:
+        return False
+    if callee is None or callee.cls is not None:
+        return False
+    params = [a.arg for a in callee.node.args.args]
+    k = [i for i, a in enumerate(parent.args) if a is node][0]
+    if k >= len(params):
+        return False
+    par = astq.parents(callee.node)
+    uses = [x for x in ast.walk(callee.node) if isinstance(x, ast.Name) and x.id == params[k]]
+    if any(isinstance(x.ctx, ast.Store) for x in uses):
+        return False
+    return bool(uses) and all(isinstance(par.get(id(x)), ast.Attribute) and par[id(x)].attr in CONSTANT_FIELDS for x in uses)
 
 
 def derived_atom_lists(fn: ast.AST) -> dict:
@@ -316,7 +392,7 @@ def run(chk) -> None:
                 if is_atoms and idx_const:
                     n_pos += 1
                     p = par.get(id(n))
-                    ok = isinstance(p, ast.Attribute) and p.attr in CONSTANT_FIELDS
+                    ok = (isinstance(p, ast.Attribute) and p.attr in CONSTANT_FIELDS) or _only_constant_fields_read(repo, fi, p, n)
                     chk.expect(
                         ok,
                         "positional-atom",
@@ -372,6 +448,9 @@ def run(chk) -> None:
                         continue
                     fm = fm or FlowMap(fi.node)
                     gap = gap_count_use(fi.node, n, par, fm)
+                    if gap is not None and gap["problems"] == ["the two residues are not known to be of one chain at that point"] and gap.get("seq") and same_chain_groups_from_caller(repo, fi, gap["seq"]):
+                        gap["problems"] = []
+                        gap["pair"] = f"{gap['pair']}; `{gap['seq']}` is one of the caller's runs of residues of one chain"
                     if gap is None:
                         chk.violation("identity-arithmetic", fi.site(n), f"`{norm(n)}` does arithmetic on a residue number: the annotation changes under an order-preserving renumbering", K(fi, f"arith:{norm(n)}"))
                     elif gap["problems"]:
@@ -393,6 +472,33 @@ def run(chk) -> None:
         fields = [x.attr for x in ast.walk(rets[0]) if isinstance(x, ast.Attribute)] if rets else []
         ok = len(rets) == 1 and isinstance(rets[0].value, ast.Compare) and set(fields) <= {"model", "chain", "number", "icode"} and {"chain", "number", "icode"} <= set(fields)
         chk.expect(ok, "identity-order", fi.where, f"{cls} order compares (chain, number, icode) (and model) lexicographically", f"{cls}.__lt__ does not compare exactly (model,) chain, number, icode", K(fi, "lt"), found=sorted(set(fields)))
+    # ---- a residue is identified by chain, number AND insertion code: a key made of some of them merges residues -------------
+    chk.robust |= {"identity-partial-key"}
+    n_keys = 0
+    for m, q in sorted(reach):
+        fi = repo.modules[m].funcs[q]
+        for tup in [x for x in ast.walk(fi.node) if isinstance(x, ast.Tuple) and isinstance(getattr(x, "ctx", None), ast.Load)]:
+            groups: dict = {}
+            for e in tup.elts:
+                v = e.values[0] if isinstance(e, ast.BoolOp) and isinstance(e.op, ast.Or) else e
+                if isinstance(v, ast.Attribute) and v.attr in ("chain", "number", "icode", "model", "name") and not isinstance(v.value, ast.Constant):
+                    groups.setdefault(norm(v.value), set()).add(v.attr)
+            for base, fields in sorted(groups.items()):
+                if not {"chain", "number"} <= fields:
+                    continue
+                n_keys += 1
+                whole = any(norm(e) == base for e in tup.elts)
+                chk.expect(
+                    "icode" in fields or whole,
+                    "identity-partial-key",
+                    fi.site(tup),
+                    f"`{norm(tup)[:70]}` names `{base}` by chain, number and insertion code",
+                    f"`{norm(tup)[:90]}` identifies `{base}` by {sorted(fields)} without the insertion code: two residues of one chain that share the number (27 and 27A) get the same key - as a dictionary key or set member they collapse into one entry (the later one wins), as a sort key they tie",
+                    K(fi, f"partial-key:{base}"),
+                    expected=["chain", "number", "icode"],
+                    found=sorted(fields),
+                )
+    chk.ok("identity-partial-key", "annotation path", f"{n_keys} tuples built from the chain and number of one residue, each with its insertion code")
     from checks import c11e
 
     c11e.check_order_keys(chk, rule="identity-order")
